@@ -361,15 +361,40 @@ def odd_names(R, rng, tier):
         open(os.path.join(d, b"ok.py"), "w").write("assert b\n")
     except OSError:
         return
-    for fmt in ("json", "yaml", "csv", "xml", "html", "txt", "sarif", "custom"):
+    for fmt, how in [(f_, h_) for f_ in ("json", "yaml", "csv", "xml", "html", "txt", "sarif", "custom", "screen") for h_ in ("file-abs", "file-rel", "stdout-rel")]:
         out = os.path.join(impl.scratch(), "odd.out")
-        r = climain.run_main(["-q", "-r", "-f", fmt, "-o", out, "--exit-zero", d.decode()])
-        R.case(("odd-name", fmt), nontrivial=True, sample={"format": fmt, "exit": r["exit"], "exception": r["exception"]})
+        if how == "file-abs":
+            r = climain.run_main(["-q", "-r", "-f", fmt, "-o", out, "--exit-zero", d.decode()])
+        elif how == "file-rel":
+            r = climain.run_main(["-q", "-r", "-f", fmt, "-o", out, "--exit-zero", "."], cwd=d.decode())
+        else:
+            r = climain.run_main(["-q", "-r", "-f", fmt, "--exit-zero", "."], cwd=d.decode())
+        R.case(("odd-name", fmt, how), nontrivial=True, sample={"format": fmt, "output": how, "exit": r["exit"], "exception": r["exception"]})
         R.count("odd-names")
         if r["exception"] or r["exit"] != 0:
-            R.violations.append({"what": "no %s report for a directory holding a file whose name is not valid UTF-8 (%s)" % (fmt, r["exception"] or "exit %s" % r["exit"]),
-                                 "input": {"names": ["caf\\xe9.py", "ok.py"], "format": fmt}, "observed": (r["traceback"] or "")[-400:],
+            R.violations.append({"what": "no %s report (%s) for a directory holding a file whose name is not valid UTF-8 (%s)" % (fmt, how, r["exception"] or "exit %s" % r["exit"]),
+                                 "input": {"names": ["caf\\xe9.py", "ok.py"], "format": fmt, "output": how}, "observed": (r["traceback"] or "")[-400:],
                                  "signature": None})
+
+
+def odd_names_stdout(R, rng, tier):
+    """The same through a real standard output that encodes strictly (PYTHONIOENCODING=utf-8), as a process of its own."""
+    import subprocess
+    d = os.path.join(impl.scratch(), "odd2").encode()
+    os.makedirs(d, exist_ok=True)
+    try:
+        open(os.path.join(d, b"caf\xe9.py"), "w").write("assert a\n")
+    except OSError:
+        return
+    for fmt in ("json", "yaml", "xml", "sarif"):
+        env = dict(os.environ, PYTHONPATH=core.REPO, PYTHONIOENCODING="utf-8")
+        p_ = subprocess.run([core.PY, "-m", "bandit", "-q", "-r", "-f", fmt, "--exit-zero", "."], cwd=d.decode(), env=env, capture_output=True)
+        R.case(("odd-name-stdout", fmt), nontrivial=True, sample={"format": fmt, "exit": p_.returncode})
+        R.count("odd-names")
+        if p_.returncode != 0 or b"Traceback" in p_.stderr:
+            R.violations.append({"what": "format %s to a strictly encoding standard output: no report for a file whose name is not valid UTF-8 (exit %s)" % (fmt, p_.returncode),
+                                 "input": {"names": ["caf\\xe9.py"], "format": fmt, "env": "PYTHONIOENCODING=utf-8"},
+                                 "observed": p_.stderr.decode("utf-8", "replace")[-400:], "signature": None})
 
 
 def run(R, replay=None):
@@ -391,4 +416,5 @@ def run(R, replay=None):
     many_files(R, rng, R.tier)
     check_faults(R, rng, R.tier)
     odd_names(R, rng, R.tier)
+    odd_names_stdout(R, rng, R.tier)
     R.disagreements_checked = R.evaluations
